@@ -1,7 +1,7 @@
 #include "mxh.h"
 using namespace vf; using namespace mxh;
 static void prop(Tape &t, Ctx &c) {
-    for (int ver : { DTLS10, DTLS12 }) for (auto &su : suites_for(ver)) {
+    for (int ver : { DTLS10, DTLS12 }) for (auto &su : suites_for(ver)) { if (getenv("ONLY") && !strstr(su.name, getenv("ONLY"))) continue;
         vfh_entropy_reset(7);
         Pair p; Config cc, sc; cc.client = true; sc.client = false; cc.versions = sc.versions = { ver }; cc.suites = { su.id }; cc.auth = sc.auth = su.auth; cc.entropy_stream = 1; sc.entropy_stream = 2;
         p.s.open(sc); p.c.open(cc);
